@@ -167,6 +167,8 @@ pub fn dt_invariant(cyc: &Cycle, d: &DateTime) -> Result<(), String> {
 
 thread_local! {
     static REUSED_BUF: std::cell::Cell<[Option<FoundDateTimeKind>; 24]> = const { std::cell::Cell::new([None; 24]) };
+    /// when set, check_search makes exactly one search (find_n) per judged reading
+    static SINGLE_SEARCH: std::cell::Cell<bool> = const { std::cell::Cell::new(false) };
     /// results of the previous search of this thread (C17: prefill for the next buffers)
     static PREV_RESULTS: std::cell::RefCell<Vec<Option<FoundDateTimeKind>>> = const { std::cell::RefCell::new(Vec::new()) };
 }
@@ -428,6 +430,11 @@ pub fn check_search(ctx: &Ctx, z: &MZone, zr: TimeZoneRef<'_>, f: &Fields, sweep
                 report(Prop::C06, json!({"latest_instant": mx}), json!(e.unix_time()), tl);
             }
         }
+    }
+
+    // (call-count-sensitive histories ask for exactly one search per judged reading)
+    if SINGLE_SEARCH.with(|c| c.get()) {
+        return;
     }
 
     // ---- the allocating search returns the same list (C05: same results; C06: same order, same earliest / latest / unique)
@@ -1395,7 +1402,9 @@ fn sweep_long_histories(ctx: &Ctx) -> Tally {
                 ns.push(((1i64 << k) + d) as usize);
             }
         }
-        for (j, &n) in ns.iter().enumerate() {
+        // every history twice: with one search per judged reading, and with all the routes check_search judges
+        for (j, &n) in ns.iter().chain(ns.iter()).enumerate() {
+            SINGLE_SEARCH.with(|c| c.set(j < ns.len()));
             let a = Fields::of_local(cyc, probes3[j % 4], 0).unwrap();
             let b = Fields::of_local(cyc, probes3[(j + 1) % 4], 0).unwrap();
             check_search(ctx, &z3, r3, &a, "long_histories", &mut tl);
@@ -1407,8 +1416,10 @@ fn sweep_long_histories(ctx: &Ctx) -> Tally {
             }
             check_search(ctx, &z3, r3, &b, "long_histories", &mut tl);
         }
+        SINGLE_SEARCH.with(|c| c.set(false));
         tl
     });
+    SINGLE_SEARCH.with(|c| c.set(false));
     match r {
         Ok(t) => tl = tl.merge(t),
         Err(m) => ctx.rec.violation("long_histories", json!({"kind":"long_histories"}), json!("no panic"), json!(m)),
